@@ -1348,6 +1348,21 @@ def r_norm_factor(ctx: RuleCtx, col: Collector):
                     f"un-normalised")
         else:
             col.ok(where_of(resp), resp.rel, line_of(sc), construct, f"divisor {[norm(d) for d in den]}")
+    # the norm is the bilinear form q^T (B) q the module documents (eigenvectors may be complex): a conjugating norm
+    # (np.linalg.norm, vdot, q.conj() @ q) normalises q^H q instead
+    alld = [d_ for d_ in den]
+    for d_ in list(den):
+        for x_ in ast.walk(d_):
+            if isinstance(x_, ast.Name):
+                alld += [dd.value for dd in ast.walk(lp) if isinstance(dd, ast.Assign) and len(dd.targets) == 1 and norm(dd.targets[0]) == x_.id]
+    conj_norm = [d_ for d_ in alld if any(k_ in norm(d_) for k_ in ("linalg.norm(", "vdot(", ".conj()", "np.conj(", "np.abs(", "abs("))]
+    construct = "EigenSolve: the norm in the scale factor is the bilinear form q^T B q"
+    if conj_norm:
+        col.bad(where_of(resp), resp.rel, line_of(sc), construct,
+                f"'{norm(conj_norm[0])[:70]}' is a conjugating (Hermitian) norm: complex eigenvectors are scaled to q^H q = 1 instead of "
+                f"the documented q^T B q = 1")
+    elif den:
+        col.ok(where_of(resp), resp.rel, line_of(sc), construct, "no conjugating norm among the divisors")
     construct = "EigenSolve: orientation factor is +1 or -1"
     txt = " ".join(norm(n_) for n_ in num)
     # unexpanded names in the numerator: look at all their definitions
@@ -1528,6 +1543,52 @@ def r_attr_owner(ctx: RuleCtx, col: Collector):
                         f"necessarily the one its own derivative was written for")
             else:
                 col.ok(where_of(resp), resp.rel, line_of(list(w.values())[0]), construct, f"single writer class {sorted(w)[0]}")
+    dedupe(col)
+
+
+@rule("R-TRANS-GUARD", floor=1)
+def r_trans_guard(ctx: RuleCtx, col: Collector):
+    """A symmetry shortcut replaces the transposed solve of the general branch only for the matching symmetry class: when
+    the general branch of `if <matrix test>:` solves with trans='T' (plain transpose) the test must establish A == A^T
+    (symmetric), when it solves with trans='H' the test must establish A == A^H (Hermitian).  A Hermitian test in front of
+    a 'T' solve takes the shortcut for complex Hermitian matrices, for which A^T = conj(A) != A."""
+    m = ctx.model
+    n_inst = 0
+    for f in _functions(m):
+        for n in ast.walk(f.node):
+            if not isinstance(n, ast.If):
+                continue
+            t = expand_names(f.node, n.test)
+            neg = False
+            while isinstance(t, ast.UnaryOp) and isinstance(t.op, ast.Not):
+                t, neg = t.operand, not neg
+            tt = norm(t).lower()
+            if not (isinstance(t, (ast.Call, ast.Attribute, ast.Name))):
+                continue
+            kind = "symmetric" if ("symmetric" in tt.split("(")[0].split(".")[-1]) else \
+                ("hermitian" if ("hermitian" in tt.split("(")[0].split(".")[-1]) else None)
+            if kind is None:
+                continue
+            general = n.body if neg else n.orelse
+            shortcut = n.orelse if neg else n.body
+            trans = {k.value.value for b in general for x in ast.walk(b) if isinstance(x, ast.Call) and isinstance(x.func, ast.Attribute)
+                     and x.func.attr == "solve" for k in x.keywords if k.arg == "trans" and isinstance(k.value, ast.Constant)}
+            short_solves = any(isinstance(x, ast.Call) and isinstance(x.func, ast.Attribute) and x.func.attr == "solve"
+                               for b in shortcut for x in ast.walk(b))
+            if not trans or short_solves or not (trans <= {"T", "H"}) or len(trans) != 1:
+                continue
+            n_inst += 1
+            tr = next(iter(trans))
+            want = "symmetric" if tr == "T" else "hermitian"
+            construct = f"{f.short}: shortcut under '{norm(n.test)}' for the trans='{tr}' solve"
+            if kind == want:
+                col.ok(where_of(f), f.rel, line_of(n), construct, f"{want} test in front of a '{tr}' solve")
+            else:
+                col.bad(where_of(f), f.rel, line_of(n), construct,
+                        f"the general branch solves with trans='{tr}', so skipping it needs a {want} matrix, but the test establishes "
+                        f"'{kind}': for a complex {kind} (not {want}) matrix the shortcut result is the conjugate of the adjoint needed")
+    if n_inst == 0:
+        raise AnalysisError("no symmetry shortcut in front of a transposed solve found")
     dedupe(col)
 
 
